@@ -25,6 +25,7 @@ PROP = {
     "modules": ["GbVerif.Model.Core", "GbVerif.Spec.Interrupt", "GbVerif.Proofs.CoreIrq", "GbVerif.Proofs.BusBasic",
                 "GbVerif.Proofs.BusWf", "GbVerif.Proofs.BusFrame", "GbVerif.Proofs.BusIo"],
     "exhaustive": True,
+    "rule_extra": "each (IF, IE) grid runs under three device states (LYC != LY; LYC = LY with and without the STAT LYC enable) and PC values whose bytes are 0x90 / 0x40, so that a push landing on STAT / LYC / TAC has its side effect on IF; SPs include 0xFF08, 0xFF42, 0xFF43, 0xFF46",
     "rule": "all 1024 IF/IE pairs x 3 IME x 3 run states x 40 stack pointers (thorough 400) x 4 PC values; non-trivial = a dispatch or a wake-up happened",
     "assumptions": ["IF and IE hold five bits, SP and PC 16 bits, buffer sizes as MemoryAreas::with_rom_file makes them (WFc; "
                     "preserved by every bus write and by handle_interrupt itself)",
